@@ -750,8 +750,89 @@ fn seek_one(c: &SeekCase, rep: &mut Report, model: &mut Model) {
     }
 }
 
+/// Large files (hundreds of KiB: long tapes) through every asset implementation of the library: the bytes
+/// delivered at the start, across the 64/128/256 KiB marks and at the very end are the file's bytes, and the
+/// end of the file is where the file ends.
+fn large_assets(o: &Opts, rep: &mut Report, only: Option<(char, usize)>) {
+    use rustzx_core::host::{BufferCursor, LoadableAsset, SeekFrom, SeekableAsset};
+    use rustzx_utils::io::{FileAsset, GzipAsset};
+    fn probe<A: LoadableAsset + SeekableAsset>(mut a: A, data: &[u8]) -> Option<String> {
+        let len = data.len();
+        let end = a.seek(SeekFrom::End(0)).ok()?;
+        if end != len {
+            return Some(format!("seek(End(0)) = {} for a file of {} bytes", end, len));
+        }
+        let mut marks = vec![0usize, 65535, 131071, 262143, 262144 - 500, len.saturating_sub(1000)];
+        marks.retain(|m| *m + 1000 <= len);
+        for m in marks {
+            if a.seek(SeekFrom::Start(m)).is_err() {
+                return Some(format!("seek to {} failed", m));
+            }
+            let mut b = vec![0u8; 1000];
+            if let Err(e) = a.read_exact(&mut b) {
+                return Some(format!("read_exact of 1000 bytes at {} failed: {:?}", m, e));
+            }
+            if b[..] != data[m..m + 1000] {
+                let k = (0..1000).find(|i| b[*i] != data[m + *i]).unwrap_or(0);
+                return Some(format!("byte at offset {} is {:02x}, the file holds {:02x}", m + k, b[k], data[m + k]));
+            }
+        }
+        None
+    }
+    let sizes: Vec<usize> = if o.thorough() { vec![70_000, 262_144, 262_145, 300_000, 1_200_000] } else { vec![262_145, 300_000] };
+    for size in sizes {
+        let data: Vec<u8> = (0..size).map(|i| ((i * 7 + (i >> 8) * 13 + (i >> 16) * 101) & 0xFF) as u8).collect();
+        for kind in ['b', 'g', 'f', 'v'] {
+            if let Some((k, sz)) = only {
+                if k != kind || sz != size {
+                    continue;
+                }
+            }
+            let r: Result<Option<String>, String> = match kind {
+                'b' => Ok(probe(BufferCursor::new(data.clone()), &data)),
+                'v' => Ok(probe(crate::host::VAsset::new(data.clone()), &data)),
+                'g' => GzipAsset::new(&env::gzip_stored(&data, 60000)[..]).map(|a| probe(a, &data)).map_err(|e| e.to_string()),
+                _ => env::temp_file(&data).map(|f| probe(FileAsset::from(f), &data)),
+            };
+            rep.eval();
+            rep.class(format!("large asset kind={} size={}", kind, size));
+            let bad = match r {
+                Ok(None) => None,
+                Ok(Some(w)) => Some(w),
+                Err(e) => Some(format!("the asset could not be opened: {}", e)),
+            };
+            if let Some(what) = bad {
+                rep.violation(Violation {
+                    kind: Kind::SpecViolated,
+                    key: format!("C16/asset/large/kind={}", kind),
+                    what: format!("a file of {} bytes through asset implementation '{}' (b = BufferCursor, g = GzipAsset, f = FileAsset, v = in-memory): {}", size, kind, what),
+                    correspondence: "corr.C16.read_exact (asset implementations deliver the bytes of the file)".into(),
+                    case: J::obj(vec![("text", J::s(format!("largeasset kind={} size={}", kind, size)))]),
+                    implementation: what.clone(),
+                    expected: "the file's bytes, whatever implementation delivers them".into(),
+                });
+            }
+        }
+    }
+}
+
 fn replay(text: &str, rep: &mut Report, model: &mut Model) {
     let text = text.trim();
+    if let Some(rest) = text.strip_prefix("largeasset ") {
+        let mut kind = 'g';
+        let mut size = 300_000usize;
+        for tok in rest.split_whitespace() {
+            if let Some(v) = tok.strip_prefix("kind=") {
+                kind = v.chars().next().unwrap_or('g');
+            }
+            if let Some(v) = tok.strip_prefix("size=") {
+                size = v.parse().unwrap_or(size);
+            }
+        }
+        let o = Opts { tier: "thorough".into(), seed: 1, model: String::new(), out: String::new(), replay: None, corpus: None };
+        large_assets(&o, rep, Some((kind, size)));
+        return;
+    }
     if text.starts_with("meta ") {
         let rest = &text[5..];
         let (scn_tok, drv) = match rest.split_once(' ') {
@@ -882,6 +963,7 @@ pub fn run(o: &Opts) -> Report {
     let t0 = std::time::Instant::now();
     small_checks(o, &mut rep, &mut rng, &mut model);
     loader_checks(o, &mut rep, &mut rng);
+    large_assets(o, &mut rep, None);
     rep.extra.push(("wall_s_model_ties".into(), J::F(t0.elapsed().as_secs_f64())));
     metamorphic(o, &mut rep, &mut rng);
     let _ = std::fs::remove_dir("/tmp/determ");
